@@ -390,7 +390,7 @@ func (self Node) Index(idx int) (v Node) {
 	isPacked := it.IsPacked()
 
 	// size = 0 maybe list node is in lazyload mode, need to check idx with it.k
-	if it.size > 0 && idx >= it.size {
+	if idx < 0 || (it.size > 0 && idx >= it.size) {
 		return errNode(meta.ErrInvalidParam, fmt.Sprintf("index %d exceeds list/set bound", idx), nil)
 	}
 
